@@ -25,7 +25,7 @@ import json, os
 import vlib, flow
 
 PROP = "C10"
-CHUNK = 3500   # cases per TLC run (TLC parses the trace single-threaded and keeps it in memory)
+CHUNK = 4000   # cases per TLC run (TLC parses the trace single-threaded and keeps it in memory)
 PAR = 2        # concurrent TLC runs
 
 
@@ -149,7 +149,8 @@ def run():
                 "level down at 33 reference positions, s2/s3 every pair / sampled triples of reference positions sharing one "
                 "record, s4 diamonds, c1 cycles, r seeded random graphs of depth <= 3 with shared records, h1 histories on ONE record "
                 "object (a conversion that fails through togo or with the record as receiver of a Go method, further "
-                "conversions, the repair of the field with hset, conversions again; each step must give what a fresh record "
+                "conversions, the repair of the field with hset, conversions again; a successful conversion, a write, then a "
+                "method call with the record as receiver / as argument; each step must give what a fresh record "
                 "with the same contents gives); zvtwin / nestouter / nestinner are registered under two names and travel nested "
                 "through pointer and interface fields: a record that went in under the first name must come back under it",
     }
